@@ -9,7 +9,7 @@
 (* Predict(d, pr) turns it into the observation record the harness         *)
 (* compares with the real NLP.                                             *)
 (***************************************************************************)
-EXTENDS Expr, Grids, Schemes, TLC
+EXTENDS Expr, Grids, Schemes, RatPoly, TLC
 
 NX(d) == Len(d.states)
 NU(d) == Len(d.controls)
@@ -25,8 +25,8 @@ Col(kind, vals, k, N) ==
     [] kind = "c"  -> vals[Min2(k, N - 1) + 1]
     [] kind = "cp" -> vals[k + 1]
 
-ParVec(d, k, N) == [i \in 1..NP(d) |-> Col(d.params[i].kind, d.params[i].val, k, N)]
-VarVec(d, pr, k, N) == [i \in 1..NV(d) |-> Col(d.vars[i].kind, pr.V[i], k, N)]
+ParVec(d, k, N) == Tup([i \in 1..NP(d) |-> Col(d.params[i].kind, d.params[i].val, k, N)])
+VarVec(d, pr, k, N) == Tup([i \in 1..NV(d) |-> Col(d.vars[i].kind, pr.V[i], k, N)])
 
 Horizon(h, d, free) ==     \* h = d.t0 or d.T ; free = probe value if it is a decision variable
   CASE h.kind = "num"  -> h.v
@@ -35,6 +35,10 @@ Horizon(h, d, free) ==     \* h = d.t0 or d.T ; free = probe value if it is a de
 
 StageEnv(d, x, u, z, p, v, t, T, t0, h, hc) ==
   [x |-> x, u |-> u, z |-> z, p |-> p, v |-> v, q |-> <<>>, t |-> t, T |-> T, t0 |-> t0, DT |-> h, DTc |-> hc]
+
+RECURSIVE SumVecs(_, _, _)
+SumVecs(vs, i, acc) == IF i > Len(vs) THEN acc ELSE SumVecs(vs, i + 1, VAdd(acc, vs[i]))
+SumSeq2(vs, n) == SumVecs(vs, 1, VZero(n))
 
 (* one control interval of a shooting method, k = 0..N-1, from start state x *)
 ShootInterval(d, pr, N, M, T, t0, g, k, x) ==
@@ -49,13 +53,68 @@ ShootInterval(d, pr, N, M, T, t0, g, k, x) ==
       S(xx, t, h) == CASE d.dyn = "next" -> StepNext(G, nx, xx, t, h, hc)
                        [] d.method.intg = "rk" -> StepRK(F, nx, xx, t, h)
                        [] d.method.intg = "expl_euler" -> StepEuler(F, nx, xx, t, h)
-  IN Propagate(S, x, VZero(NQ(d)), g[k + 1], hc, M)
+      r == Propagate(S, x, VZero(NQ(d)), g[k + 1], hc, M)
+  IN [xs |-> r.xs, qs |-> r.qs, coefs |-> r.coefs, coefqs |-> r.coefqs, xf |-> r.xf, qf |-> r.qf,
+      zs |-> Tup([l \in 1..M |-> <<>>]), roots |-> <<>>, zf |-> <<>>]
 
 RECURSIVE SSChain(_, _, _, _, _, _, _, _, _)
 SSChain(d, pr, N, M, T, t0, g, k, acc) ==   \* acc = sequence of interval results so far
   IF k = N THEN acc
   ELSE LET x == IF k = 0 THEN pr.X[1] ELSE acc[k].xf
        IN SSChain(d, pr, N, M, T, t0, g, k + 1, Append(acc, ShootInterval(d, pr, N, M, T, t0, g, k, x)))
+
+(***************************************************************************)
+(* Direct collocation (C02).  tau: collocation nodes of the scheme; the     *)
+(* coefficient matrices are *derived* here from tau by Lagrange             *)
+(* interpolation (RatPoly), not copied from CasADi.                         *)
+(* Probe ingredients: pr.X node states, pr.XI[k][l] start state of          *)
+(* integrator step l >= 2 of interval k, pr.XR[k][l][j] helper states,      *)
+(* pr.ZR[k][l][j] algebraic values at the collocation times.                *)
+(***************************************************************************)
+Tau(scheme, deg) ==
+  CASE scheme = "radau" /\ deg = 1 -> <<One>>
+    [] scheme = "radau" /\ deg = 2 -> <<Q(1, 3), One>>
+    [] scheme = "legendre" /\ deg = 1 -> <<Q(1, 2)>>
+
+RECURSIVE CumQSeq(_, _, _)
+CumQSeq(qs, i, q) == IF i > Len(qs) THEN <<>> ELSE <<q>> \o CumQSeq(qs, i + 1, VAdd(q, qs[i]))
+
+DCInterval(d, pr, N, M, T, t0, g, k) ==
+  LET m == d.method
+      tau == Tau(m.scheme, m.degree)
+      deg == m.degree
+      cC == CollC(tau)
+      cD == CollD(tau)
+      cB == CollB(tau)
+      u == pr.U[k + 1]
+      p == ParVec(d, k, N)
+      v == VarVec(d, pr, k, N)
+      nx == NX(d)
+      hc == Sub(g[k + 2], g[k + 1])
+      dt == Mul(hc, Q(1, M))
+      xstart(l) == IF l = 1 THEN pr.X[k + 1] ELSE pr.XI[k + 1][l]
+      xnext(l) == IF l = M THEN pr.X[k + 2] ELSE pr.XI[k + 1][l + 1]
+      tstep(l) == Add(g[k + 1], Mul(R(l - 1), dt))
+      step(l) ==
+        LET Xc == <<xstart(l)>> \o pr.XR[k + 1][l]            \* deg+1 state vectors
+            Zc == pr.ZR[k + 1][l]                              \* deg algebraic vectors
+            tr == Tup([j \in 1..deg |-> Add(tstep(l), Mul(dt, tau[j]))])
+            env(j) == StageEnv(d, Xc[j + 1], u, Zc[j], p, v, tr[j], T, t0, dt, hc)
+            pidot(j) == VScale(Inv(dt), Tup([i \in 1..nx |-> SumSeq(Tup([r \in 1..deg + 1 |-> Mul(Xc[r][i], cC[r][j])]))]))
+            f(j) == EvalVec(d.rhs, env(j))
+        IN [xr |-> pr.XR[k + 1][l], zr |-> Zc, tr |-> tr,
+            colloc |-> Tup([j \in 1..deg |-> Tup([i \in 1..nx |-> Div(Sub(pidot(j)[i], f(j)[i]), d.states[i].dscale)])]),
+            alg |-> Tup([j \in 1..deg |-> Tup([i \in 1..Len(d.alg) |-> Div(Eval(d.alg[i], env(j)), d.algs[i].scale)])]),
+            cont |-> Tup([i \in 1..nx |-> Div(Sub(SumSeq(Tup([r \in 1..deg + 1 |-> Mul(Xc[r][i], cD[r])])), xnext(l)[i]), d.states[i].scale)]),
+            quad |-> Tup([qi \in 1..NQ(d) |-> SumSeq(Tup([j \in 1..deg |-> Mul(Mul(Eval(d.quads[qi], env(j)), dt), cB[j])]))]),
+            \* z at the start of the step: the interpolant of the root values extrapolated to tau = 0
+            z0 |-> Tup([i \in 1..NZ(d) |-> SumSeq(Tup([j \in 1..deg |-> Mul(ZInterp(tau, Zero)[j], Zc[j][i])]))]),
+            z1 |-> Tup([i \in 1..NZ(d) |-> SumSeq(Tup([j \in 1..deg |-> Mul(ZInterp(tau, One)[j], Zc[j][i])]))])]
+      steps == Tup([l \in 1..M |-> step(l)])
+      quads == Tup([l \in 1..M |-> steps[l].quad])
+  IN [xs |-> Tup([l \in 1..M |-> xstart(l)]), zs |-> Tup([l \in 1..M |-> steps[l].z0]),
+      qs |-> CumQSeq(quads, 1, VZero(NQ(d))), coefs |-> <<>>, coefqs |-> <<>>,
+      xf |-> pr.X[k + 2], qf |-> SumSeq2(quads, NQ(d)), roots |-> steps, zf |-> steps[M].z1]
 
 RECURSIVE CumQ(_, _, _)
 CumQ(res, k, q) == IF k > Len(res) THEN <<q>> ELSE <<q>> \o CumQ(res, k + 1, VAdd(q, res[k].qf))
@@ -67,30 +126,39 @@ World(d, pr) ==
       t0 == Horizon(d.t0, d, pr.t0)
       T == Horizon(d.T, d, pr.T)
       g == ControlGrid(m.grid, N, t0, T, pr.gv)
-      res == IF m.kind = "MS"
-             THEN [k \in 1..N |-> ShootInterval(d, pr, N, M, T, t0, g, k - 1, pr.X[k])]
-             ELSE SSChain(d, pr, N, M, T, t0, g, 0, <<>>)
-      Xn == IF m.kind = "MS" THEN pr.X
-            ELSE [k \in 1..N + 1 |-> IF k = 1 THEN pr.X[1] ELSE res[k - 1].xf]
+      res == CASE m.kind = "MS" -> Tup([k \in 1..N |-> ShootInterval(d, pr, N, M, T, t0, g, k - 1, pr.X[k])])
+               [] m.kind = "SS" -> SSChain(d, pr, N, M, T, t0, g, 0, <<>>)
+               [] m.kind = "DC" -> Tup([k \in 1..N |-> DCInterval(d, pr, N, M, T, t0, g, k - 1)])
+      Xn == IF m.kind \in {"MS", "DC"} THEN pr.X
+            ELSE Tup([k \in 1..N + 1 |-> IF k = 1 THEN pr.X[1] ELSE res[k - 1].xf])
   IN [d |-> d, pr |-> pr, N |-> N, M |-> M, t0 |-> t0, T |-> T, g |-> g,
       ig |-> IntegratorGrid(g, N, M), res |-> res, X |-> Xn,
-      Q |-> CumQ(res, 1, VZero(NQ(d)))]
+      Q |-> CumQ(res, 1, VZero(NQ(d))),
+      \* algebraic values at the nodes (DC): start of each interval, end of the last
+      Zn |-> Tup([k \in 1..N + 1 |-> IF NZ(d) = 0 THEN <<>> ELSE IF k <= N THEN res[k].zs[1] ELSE res[N].zf])]
 
 Len_(W, k) == Sub(W.g[k + 2], W.g[k + 1])       \* length of control interval k (0-based)
 
 EnvNode(W, k) ==          \* node k = 0..N
   LET kk == Min2(k, W.N - 1)
-  IN [x |-> W.X[k + 1], u |-> W.pr.U[kk + 1], z |-> <<>>,
+  IN [x |-> W.X[k + 1], u |-> W.pr.U[kk + 1], z |-> W.Zn[k + 1],
       p |-> ParVec(W.d, k, W.N), v |-> VarVec(W.d, W.pr, k, W.N),
       q |-> W.Q[k + 1], t |-> W.g[k + 1], T |-> W.T, t0 |-> W.t0,
       DT |-> Mul(Len_(W, kk), Q(1, W.M)), DTc |-> Len_(W, kk)]
 
 EnvIntg(W, k, l) ==       \* integrator point l = 0..M-1 of interval k = 0..N-1
-  [x |-> W.res[k + 1].xs[l + 1], u |-> W.pr.U[k + 1], z |-> <<>>,
+  [x |-> W.res[k + 1].xs[l + 1], u |-> W.pr.U[k + 1], z |-> W.res[k + 1].zs[l + 1],
    p |-> ParVec(W.d, k, W.N), v |-> VarVec(W.d, W.pr, k, W.N),
    q |-> VAdd(W.Q[k + 1], W.res[k + 1].qs[l + 1]),
    t |-> W.ig[k * W.M + l + 1], T |-> W.T, t0 |-> W.t0,
    DT |-> Mul(Len_(W, k), Q(1, W.M)), DTc |-> Len_(W, k)]
+
+EnvRoot(W, k, l, j) ==    \* collocation time j = 1..deg of step l = 0..M-1 of interval k
+  LET st == W.res[k + 1].roots[l + 1]
+  IN [x |-> st.xr[j], u |-> W.pr.U[k + 1], z |-> st.zr[j],
+      p |-> ParVec(W.d, k, W.N), v |-> VarVec(W.d, W.pr, k, W.N), q |-> <<>>,
+      t |-> st.tr[j], T |-> W.T, t0 |-> W.t0,
+      DT |-> Mul(Len_(W, k), Q(1, W.M)), DTc |-> Len_(W, k)]
 
 EnvNS(W) ==               \* non-signal context: only global quantities are meaningful
   [x |-> <<>>, u |-> <<>>, z |-> <<>>, p |-> ParVec(W.d, 0, W.N), v |-> VarVec(W.d, W.pr, 0, W.N),
@@ -109,9 +177,9 @@ EvalW(e, W, env, k) ==
     [] e.op = "at_t0" -> EvalW(e.a, W, EnvNode(W, 0), 0)
     [] e.op = "at_tf" -> EvalW(e.a, W, EnvNode(W, W.N), W.N)
     [] e.op = "off"   -> EvalW(e.a, W, EnvNode(W, k + e.o), k + e.o)
-    [] e.op = "sum"   -> SumSeq([kk \in 1..W.N |-> EvalW(e.a, W, EnvNode(W, kk - 1), kk - 1)])
-    [] e.op = "sump"  -> SumSeq([kk \in 1..W.N + 1 |-> EvalW(e.a, W, EnvNode(W, kk - 1), kk - 1)])
-    [] e.op = "intc"  -> SumSeq([kk \in 1..W.N |-> Mul(Len_(W, kk - 1), EvalW(e.a, W, EnvNode(W, kk - 1), kk - 1))])
+    [] e.op = "sum"   -> SumSeq(Tup([kk \in 1..W.N |-> EvalW(e.a, W, EnvNode(W, kk - 1), kk - 1)]))
+    [] e.op = "sump"  -> SumSeq(Tup([kk \in 1..W.N + 1 |-> EvalW(e.a, W, EnvNode(W, kk - 1), kk - 1)]))
+    [] e.op = "intc"  -> SumSeq(Tup([kk \in 1..W.N |-> Mul(Len_(W, kk - 1), EvalW(e.a, W, EnvNode(W, kk - 1), kk - 1))]))
 
 (***************************************************************************)
 (* Constraint placement (C04): the declared instances of a path constraint *)
@@ -120,32 +188,35 @@ EvalW(e, W, env, k) ==
 ConsExprs(c) == IF c.rel = "box" THEN <<c.lo, c.lhs, c.hi>> ELSE <<c.lhs, c.rhs>>
 ConsOffsets(c) == UNION {Offsets(ConsExprs(c)[i]) : i \in 1..Len(ConsExprs(c))}
 
-DeclaredPoints(c, N, M) ==
+DeclaredPoints(c, N, M, deg) ==
   CASE c.grid = "control" ->
-         {[k |-> k, l |-> 0] : k \in {kk \in 0..N : /\ (kk = 0 => c.incF) /\ (kk = N => c.incL)
+         {[k |-> k, l |-> 0, j |-> 0] : k \in {kk \in 0..N : /\ (kk = 0 => c.incF) /\ (kk = N => c.incL)
                                                      /\ \A o \in ConsOffsets(c) : kk + o \in 0..N}}
     [] c.grid = "integrator" ->
-         {pt \in ({[k |-> k, l |-> l] : k \in 0..N - 1, l \in 0..M - 1} \cup {[k |-> N, l |-> 0]}) :
+         {pt \in ({[k |-> k, l |-> l, j |-> 0] : k \in 0..N - 1, l \in 0..M - 1} \cup {[k |-> N, l |-> 0, j |-> 0]}) :
               /\ (pt.k = 0 /\ pt.l = 0 => c.incF) /\ (pt.k = N => c.incL)}
-    [] c.grid = "point" -> {[k |-> -1, l |-> 0]}
+    [] c.grid = "roots" -> {[k |-> k, l |-> l, j |-> j] : k \in 0..N - 1, l \in 0..M - 1, j \in 1..deg}
+    [] c.grid = "point" -> {[k |-> -1, l |-> 0, j |-> 0]}
 
 (* the loops of MultipleShooting / SingleShooting.add_constraints, with the
    IndexError drop rule of eval_at_control (k = -1 stands for the final node) *)
-EmittedPoints(c, N, M, Devs) ==
+EmittedPoints(c, N, M, deg, Devs) ==
   CASE c.grid = "control" ->
-         {[k |-> k, l |-> 0] : k \in {kk \in 0..N - 1 : /\ (kk = 0 => c.incF)
+         {[k |-> k, l |-> 0, j |-> 0] : k \in {kk \in 0..N - 1 : /\ (kk = 0 => c.incF)
                                          /\ \A o \in ConsOffsets(c) : kk + o >= 0 /\ kk + o <= N}}
          \cup (IF c.incL /\ \A o \in ConsOffsets(c) :
                      /\ o <= 0
                      /\ (IF "DropPrevAtFinalNode" \in Devs THEN -1 + o >= 0 ELSE N + o >= 0)
-               THEN {[k |-> N, l |-> 0]} ELSE {})
+               THEN {[k |-> N, l |-> 0, j |-> 0]} ELSE {})
     [] c.grid = "integrator" ->
-         {pt \in {[k |-> k, l |-> l] : k \in 0..N - 1, l \in 0..M - 1} : (pt.k = 0 /\ pt.l = 0 => c.incF)}
-         \cup (IF c.incL THEN {[k |-> N, l |-> 0]} ELSE {})
-    [] c.grid = "point" -> {[k |-> -1, l |-> 0]}
+         {pt \in {[k |-> k, l |-> l, j |-> 0] : k \in 0..N - 1, l \in 0..M - 1} : (pt.k = 0 /\ pt.l = 0 => c.incF)}
+         \cup (IF c.incL THEN {[k |-> N, l |-> 0, j |-> 0]} ELSE {})
+    [] c.grid = "roots" -> {[k |-> k, l |-> l, j |-> j] : k \in 0..N - 1, l \in 0..M - 1, j \in 1..deg}
+    [] c.grid = "point" -> {[k |-> -1, l |-> 0, j |-> 0]}
 
 EnvAt(W, pt) ==
   IF pt.k = -1 THEN EnvNS(W)
+  ELSE IF pt.j > 0 THEN EnvRoot(W, pt.k, pt.l, pt.j)
   ELSE IF pt.l = 0 THEN EnvNode(W, pt.k)
   ELSE EnvIntg(W, pt.k, pt.l)
 
@@ -159,40 +230,58 @@ Slacks(c, W, pt) ==
        [] c.rel = "eq"  -> <<Div(Sub(ev(c.lhs), ev(c.rhs)), s)>>
        [] c.rel = "box" -> <<Div(Sub(ev(c.lhs), ev(c.lo)), s), Div(Sub(ev(c.hi), ev(c.lhs)), s)>>
 
+RECURSIVE FlatFrom(_, _)
+FlatFrom(ss, i) == IF i > Len(ss) THEN <<>> ELSE ss[i] \o FlatFrom(ss, i + 1)
+Flat(ss) == FlatFrom(ss, 1)
+
 SetToSeq(S) == IF S = {} THEN <<>> ELSE LET RECURSIVE H(_) H(SS) == IF SS = {} THEN <<>> ELSE LET x == CHOOSE y \in SS : TRUE IN <<x>> \o H(SS \ {x}) IN H(S)
 
 (* W2 is the world of a second probe that differs in every ingredient: an instance whose slacks
    coincide in both does not depend on any decision variable ("const"); the implementation may
    legitimately omit such a row when it is satisfied (CasADi folds it to a true constant). *)
 PredictCons(W, W2) ==
-  [ci \in 1..Len(W.d.cons) |->
+  Tup([ci \in 1..Len(W.d.cons) |->
      LET c == W.d.cons[ci]
-         pts == SetToSeq(DeclaredPoints(c, W.N, W.M))
+         pts == SetToSeq(DeclaredPoints(c, W.N, W.M, W.d.method.degree))
      IN [cid |-> c.cid, rel |-> c.rel,
-         inst |-> [pi \in 1..Len(pts) |->
+         inst |-> Tup([pi \in 1..Len(pts) |->
                      LET s1 == Slacks(c, W, pts[pi]) IN
-                     [k |-> pts[pi].k, l |-> pts[pi].l, s |-> s1,
-                      const |-> ~VBad(s1) /\ s1 = Slacks(c, W2, pts[pi])]]]]
+                     [k |-> pts[pi].k, l |-> pts[pi].l, j |-> pts[pi].j, s |-> s1,
+                      const |-> ~VBad(s1) /\ s1 = Slacks(c, W2, pts[pi])]])]])
 
 PredictGaps(W) ==
   IF W.d.method.kind = "MS"
-  THEN [k \in 1..W.N |-> [i \in 1..NX(W.d) |-> Div(Sub(W.X[k + 1][i], W.res[k].xf[i]), W.d.states[i].scale)]]
+  THEN Tup([k \in 1..W.N |-> Tup([i \in 1..NX(W.d) |-> Div(Sub(W.X[k + 1][i], W.res[k].xf[i]), W.d.states[i].scale)])])
+  ELSE IF W.d.method.kind = "DC"
+  THEN Tup([k \in 1..W.N |->
+          LET st == W.res[k].roots
+              flat(l) == st[l].cont \o Flat(st[l].colloc) \o Flat(st[l].alg)
+          IN Flat(Tup([l \in 1..W.M |-> flat(l)]))])
   ELSE <<>>
 
-PredictObj(W) == SumSeq([i \in 1..Len(W.d.obj) |-> EvalW(W.d.obj[i], W, EnvNS(W), -1)])
+PredictObj(W) == SumSeq(Tup([i \in 1..Len(W.d.obj) |-> EvalW(W.d.obj[i], W, EnvNS(W), -1)]))
 
 (* read-backs: sample / value of expressions *)
 PredictRead(W, r) ==
   CASE r.kind = "value" -> [t |-> <<>>, v |-> <<EvalW(r.e, W, EnvNS(W), -1)>>]
     [] r.kind = "sample" /\ r.grid = "control" ->
-         [t |-> W.g, v |-> [k \in 1..W.N + 1 |-> EvalW(r.e, W, EnvNode(W, k - 1), k - 1)]]
+         [t |-> W.g, v |-> Tup([k \in 1..W.N + 1 |-> EvalW(r.e, W, EnvNode(W, k - 1), k - 1)])]
     [] r.kind = "sample" /\ r.grid = "control-" ->
-         [t |-> SubSeq(W.g, 1, W.N), v |-> [k \in 1..W.N |-> EvalW(r.e, W, EnvNode(W, k - 1), k - 1)]]
+         [t |-> SubSeq(W.g, 1, W.N), v |-> Tup([k \in 1..W.N |-> EvalW(r.e, W, EnvNode(W, k - 1), k - 1)])]
     [] r.kind = "sample" /\ r.grid = "integrator" ->
          [t |-> W.ig,
-          v |-> [i \in 1..W.N * W.M + 1 |->
+          v |-> Tup([i \in 1..W.N * W.M + 1 |->
                    IF i = W.N * W.M + 1 THEN EvalW(r.e, W, EnvNode(W, W.N), W.N)
-                   ELSE EvalW(r.e, W, EnvIntg(W, (i - 1) \div W.M, (i - 1) % W.M), -1)]]
+                   ELSE EvalW(r.e, W, EnvIntg(W, (i - 1) \div W.M, (i - 1) % W.M), -1)])]
+
+PredictReadR(W, r) ==
+  IF r.kind = "sample" /\ r.grid = "roots"
+  THEN LET deg == W.d.method.degree
+           n == W.N * W.M * deg
+           pt(i) == [k |-> (i - 1) \div (W.M * deg), l |-> ((i - 1) \div deg) % W.M, j |-> ((i - 1) % deg) + 1]
+       IN [t |-> Tup([i \in 1..n |-> W.res[pt(i).k + 1].roots[pt(i).l + 1].tr[pt(i).j]]),
+           v |-> Tup([i \in 1..n |-> EvalW(r.e, W, EnvRoot(W, pt(i).k, pt(i).l, pt(i).j), -1)])]
+  ELSE PredictRead(W, r)
 
 Predict(d, pr, pr2) ==
   LET W == World(d, pr)
@@ -203,5 +292,5 @@ Predict(d, pr, pr2) ==
       gaps |-> PredictGaps(W),
       cons |-> PredictCons(W, W2),
       f |-> PredictObj(W),
-      reads |-> [i \in 1..Len(d.reads) |-> PredictRead(W, d.reads[i])]]
+      reads |-> Tup([i \in 1..Len(d.reads) |-> PredictReadR(W, d.reads[i])])]
 =============================================================================
